@@ -52,6 +52,9 @@ def _mk_spendable(sp, i, seed):
         return "/".join([tx_hash[::-1].hex(), str(index), script.hex(), str(value)]), ident
     if form == "text7":
         return "/".join([tx_hash[::-1].hex(), str(index), script.hex(), str(value), "0", "0", "0"]), ident
+    if form == "dictstr":
+        # the same record after a JSON layer that writes 64-bit integers as strings: still a satoshi count
+        return {"coin_value": str(value), "script_hex": script.hex(), "tx_hash_hex": tx_hash[::-1].hex(), "tx_out_index": index}, ident
     return {"coin_value": value, "script_hex": script.hex(), "tx_hash_hex": tx_hash[::-1].hex(), "tx_out_index": index}, ident
 
 
@@ -320,7 +323,7 @@ def s_create(draw):
         rest -= take
     values.append(1 + rest)
     order = draw(st.permutations(values))
-    sp_form = st.sampled_from(["obj", "text4", "text7", "dict", "obj"])
+    sp_form = st.sampled_from(["obj", "text4", "text7", "dict", "obj", "dictstr"])
     spendables = [{"value": v, "form": draw(sp_form), "index": draw(st.one_of(st.integers(0, 3), st.integers(0, 2 ** 32 - 1))),
                    "script": draw(st.sampled_from(["p2pkh", "p2pkh", 0, 1, 25, 32]))} for v in order]
     case = {"seed": draw(st.integers(0, 10 ** 6)), "spendables": spendables, "payables": payables, "fee": fee}
